@@ -123,6 +123,11 @@ func SortedKeys(m map[string]interface{}) []string {
 // WriteCases writes work/<id>/cases.v: header, `Definition cases := [...]`, and the fixed footer that
 // prints the list of mismatching case indices.
 func WriteCases(dir, header, caseType string, cases []string, mismatchFn string) {
+	if len(cases) > 600 && filepath.Base(dir) != ".shard" {
+		// large runs are split into files that bin/check evaluates in parallel (and that Coq's parser can take)
+		WriteCasesSharded(dir, header, caseType, cases, mismatchFn, 400)
+		return
+	}
 	var sb strings.Builder
 	sb.WriteString(header)
 	sb.WriteString("\nDefinition cases : list (" + caseType + ") := [\n")
